@@ -57,7 +57,7 @@ inline bool with_accepts(int wk, int key) {
 }
 
 // SIDE_EFFECT behaviours (data)
-enum XKind { X_OFF = 0, X_LOG, X_THROW, X_NEST, NXKIND };
+enum XKind { X_OFF = 0, X_LOG, X_THROW, X_NEST, X_TRACER, NXKIND };   // X_TRACER: the side effect constructs a tracer that stays alive
 
 constexpr long INF = -1;  // "hi" value meaning unbounded
 
